@@ -5,9 +5,10 @@ import WP.Props.C06
   Proved about the model of swap_manager::swap (any tick layout, any number of steps, static or
   adaptive fee): amount bounds, the limit guard, "partial ⇒ stopped at the limit", the exact-out
   partial-fill rule, and the threshold decision of the handlers (`swapThreshold`).
-  NOT yet proved (decided by the history correspondence and the implementation oracle): that the
-  price moves monotonically and ends between the limit and the start price; that needs the
-  TickPriceConsistent invariant (C09) carried through the loop.  Stated as `PriceBounded`.
+  That the price ends between the limit and the start price needs the tick/price consistency
+  invariant (C09) carried through the loop: proved for static-fee pools in WP/Props/SwapPath.lean
+  (`swap_static`).  For adaptive-fee pools it is the stated obligation `PriceBounded` (decided by the
+  history correspondence and the implementation oracle).
 -/
 namespace WP.C03
 open WP WP.Gen WP.C06
